@@ -37,11 +37,70 @@ package idempotency
 
 //@ macro codes(z, s) = z.StatusCode == decStatus(s) && str(z.Body) == decBody(s) && forallS(h, indom(z.Headers, h) <==> decHas(s, h)) && forallS(h, decHas(s, h) ==> len(z.Headers[h]) == decCnt(s, h) && forall(i, 0, decCnt(s, h), z.Headers[h][i] == decHdr(s, h, i)))
 
-//@ func (*response).UnmarshalMsg assumed
+// The generated codec (response_msgp.go) is CHECKED for run-time safety (indices, slices), its frame, and for the work
+// it does per input byte; only the round trip itself (the two `trusted ensures`) stays assumed. msgp primitives:
+// deps/mw_C12.spec, deps/mw_C17.spec.
+//
+// UnmarshalMsg. TIME: the rest handed from reader to reader is always a proper suffix of the input (restOf), and the
+// outer loop strictly shortens it per iteration (decreases len(bts): checked - the zero-copy field name read at the top
+// of the iteration is the anchor the inner loops are measured against), so the number of top-level fields decoded is
+// bounded by len(bts) whatever the map header announces. The header-map loop (loop 3) is only shown to terminate by its
+// counter (decreases zb0002): each of its iterations reads a string, i.e. consumes a byte, but the value of bts at an
+// enclosing loop head cannot be named in an inner invariant (engine), so "shortens per iteration" is not a checked
+// measure there; the value-list loop (loop 4) runs len(za0002) times or stops at the first failing read.
+// MEMORY is NOT proportional to the input: the header map is made with the announced entry count as size hint
+// (make(map, zb0002), up to 2^32-1) and each value list is made with the announced length (make([]string, zb0003), up
+// to 2^32-1) BEFORE any element is read - `allocbound` states what the code guarantees (the 32-bit count), not
+// len(bts): with `allocbound len(bts)` the obligation alloc:... fails (12 input bytes -> 256 MiB, replay
+// observed_c17_unmarshal_alloc_test.go). The bytes come from the middleware's own store, which is why this is recorded
+// as an observation outside C17 and not as a violation. (allocbound does not cover make(map, n): engine.)
+//@ macro restOf(b0, b) = arr(b) == arr(b0) && off(b) + len(b) == off(b0) + len(b0) && len(b) < len(b0)
+//@ func (*response).UnmarshalMsg
 //@   modifies fields(z), heap(MD_string_LJstring), heap(MV_string_LJstring), heap(E_string), heap(E_uint8)
-//@   ensures result1 == nil ==> z.Headers != nil && codes(z, old(str(bts)))
-//@ func (*response).MarshalMsg assumed pure
-//@   ensures result1 == nil ==> codes(z, str(result0))
+//@   allocbound announced-count-not-input-length: 4294967295
+//@   loop 1
+//@     invariant proper-suffix-of-input: restOf(old(bts), bts)
+//@     decreases len(bts)
+//@   loop 2
+//@     invariant map-made: z.Headers != nil
+//@   loop 3
+//@     invariant proper-suffix-of-input: restOf(old(bts), bts)
+//@     invariant behind-the-field-name: off(bts) >= off(field) + len(field) && arr(field) == arr(old(bts)) && off(field) > off(old(bts))
+//@     invariant map-made: z.Headers != nil
+//@     decreases zb0002
+//@   loop 4
+//@     invariant proper-suffix-of-input: restOf(old(bts), bts)
+//@     invariant behind-the-field-name: off(bts) >= off(field) + len(field) && arr(field) == arr(old(bts)) && off(field) > off(old(bts))
+//@     invariant map-made: z.Headers != nil
+//@     invariant index-in-range: rangeindex < len(za0002)
+//@   ensures consumes-input: result1 == nil ==> restOf(bts, result0)
+//@   ensures malformed-header-touches-nothing: !old(rdMapOK(str(bts))) ==> result1 != nil && z.Headers == old(z.Headers) && z.Body == old(z.Body) && z.StatusCode == old(z.StatusCode)
+//@   trusted ensures round-trip: result1 == nil ==> z.Headers != nil && codes(z, old(str(bts)))
+
+// MarshalMsg never fails, writes only into the spare capacity of b or into a new array (stated for the one object the
+// caller cares about: the body being encoded keeps its bytes, provided b is not a view of it), and appends at least the
+// fixed part of the encoding (map header, the three field names, one byte per value: 12 bytes) plus the body.
+// The frame is the whole byte heap: byte cells written inside a loop are havocked as a whole at the loop head (engine),
+// so "only b's array or new arrays" cannot be stated as a frame.
+//@ func (*response).Msgsize
+//@   pure
+//@ func (*response).MarshalMsg
+//@   requires buffer-is-not-a-view-of-the-body: len(z.Body) == 0 || (allocated(arr(z.Body)) && arr(b) != arr(z.Body))
+//@   modifies heap(E_uint8)
+//@   loop 1
+//@     invariant grows: len(o) >= len(b) + 5
+//@     invariant own-buffer: (arr(o) == arr(b) && off(o) == off(b)) || !old(allocated(arr(o)))
+//@     invariant body-untouched: str(z.Body) == old(str(z.Body))
+//@   loop 2
+//@     invariant grows: len(o) >= len(b) + 5
+//@     invariant own-buffer: (arr(o) == arr(b) && off(o) == off(b)) || !old(allocated(arr(o)))
+//@     invariant body-untouched: str(z.Body) == old(str(z.Body))
+//@     invariant index-in-range: rangeindex < len(za0002)
+//@   ensures never-fails: result1 == nil
+//@   ensures appends-at-least-the-fixed-part: len(result0) >= len(b) + 12 + len(z.Body)
+//@   ensures own-buffer: (arr(result0) == arr(b) && off(result0) == off(b)) || !old(allocated(arr(result0)))
+//@   ensures body-untouched: str(z.Body) == old(str(z.Body))
+//@   trusted ensures round-trip: result1 == nil ==> codes(z, str(result0))
 
 // ---------------------------------------------------------------------------------------------
 // Locker (interface of this package). Ghost lockHeld[l][k]: this activation holds key k of locker l.
@@ -215,13 +274,31 @@ package idempotency
 // it cannot, because the count still includes the caller (registration-counted / count-decremented are
 // the two facts that argument uses). For the same reason the protected state is not havocked at Lock:
 // mlSections is a dummy protected variable. Accesses outside l.mu are not detected by the engine.
-// Behavioural subtyping MemoryLock <: Locker (contracts above) is by this argument, not by the engine.
+// Behavioural subtyping MemoryLock <: Locker: the sequential part is checked (refinement reading below, iface-* clauses);
+// the exclusion among goroutines is by this argument, not by the engine.
 // ---------------------------------------------------------------------------------------------
 //@ ghost mlSections int
 //@ macro entryCounted(l) = forallS(k, indom(l.keys, k) ==> l.keys[k] != nil && allocated(l.keys[k]) && l.keys[k].locked >= 1) && forallS(k1, forallS(k2, indom(l.keys, k1) && indom(l.keys, k2) && l.keys[k1] == l.keys[k2] ==> k1 == k2))
 
+// Behavioural subtyping MemoryLock <: Locker, as far as sequential contracts go. Read the interface ghost
+// lockHeld[l][k] ("this activation holds key k of locker l") for a MemoryLock l as
+//     mlHeld(l, k) = the key is registered and this activation holds the registered mutex.
+// Under this reading every clause of the assumed contracts of Locker.Lock / Locker.Unlock is a CHECKED clause here:
+//   Locker.Lock   requires not-reentrant        ~ requires iface-not-reentrant (MemoryLock asks for nothing more: l.mu is
+//                                                 private to this type and never held across a return - mu-not-held-on-return;
+//                                                 map-made is NewMemoryLock's postcondition)
+//                 ensures held on success       ~ always-succeeds + iface-holds-this-key
+//                 ensures other keys as before  ~ iface-other-keys-as-before (other lockers: nothing of them is in the frame)
+//                 modifies stHas, stVal         ~ MemoryLock touches no storage (the interface clause models interference by
+//                                                 OTHER requests while waiting; it weakens what the caller knows)
+//   Locker.Unlock requires held-by-caller       ~ implies caller-holds-only-the-key-mutex (which also admits unknown keys)
+//                 ensures released, others kept ~ iface-releases-this-key + iface-other-keys-as-before
+// The substitution itself is not an engine construct (lockHeld is only ever written by the assumed interface contract).
+// What the sequential contracts do not say - and what the step to "at most one holder per key among all goroutines" needs -
+// is the argument in the comment above (one mutex per key while anyone holds or waits); sync.Mutex itself is assumed.
+//@ macro mlHeld(l, k) = indom(l.keys, k) && held(l.keys[k].mu)
 //@ func (*MemoryLock).Lock
-//@   requires caller-holds-no-mutex: forallI(m, !held(m))
+//@   requires iface-not-reentrant: !held(l.mu) && !mlHeld(l, key)
 //@   requires map-made: l.keys != nil
 //@   lock l.mu protects mlSections inv every-entry-counted: entryCounted(l)
 //@   ensures always-succeeds: result == nil
@@ -229,6 +306,9 @@ package idempotency
 //@   ensures registration-counted: l.keys[key].locked == ite(old(indom(l.keys, key)), old(l.keys[key].locked), 0) + 1
 //@   ensures existing-entry-reused: old(indom(l.keys, key)) ==> l.keys[key] == old(l.keys[key])
 //@   ensures other-entries-untouched: forallS(k, k != key ==> (indom(l.keys, k) <==> old(indom(l.keys, k))) && l.keys[k] == old(l.keys[k]))
+//@   ensures iface-holds-this-key: mlHeld(l, key)
+//@   ensures iface-other-keys-as-before: forallS(k, k != key ==> (mlHeld(l, k) <==> old(mlHeld(l, k))))
+//@   ensures mu-not-held-on-return: !held(l.mu)
 
 //@ func (*MemoryLock).Unlock
 //@   requires caller-holds-only-the-key-mutex: !held(l.mu) && (indom(l.keys, key) ==> held(l.keys[key].mu))
@@ -240,3 +320,6 @@ package idempotency
 //@   ensures count-decremented: old(indom(l.keys, key)) && old(l.keys[key].locked) > 1 ==> indom(l.keys, key) && l.keys[key] == old(l.keys[key]) && l.keys[key].locked == old(l.keys[key].locked) - 1
 //@   ensures last-one-removes-the-entry: old(indom(l.keys, key)) && old(l.keys[key].locked) <= 1 ==> !indom(l.keys, key)
 //@   ensures other-entries-untouched: forallS(k, k != key ==> (indom(l.keys, k) <==> old(indom(l.keys, k))) && l.keys[k] == old(l.keys[k]))
+//@   ensures iface-releases-this-key: !mlHeld(l, key)
+//@   ensures iface-other-keys-as-before: forallS(k, k != key ==> (mlHeld(l, k) <==> old(mlHeld(l, k))))
+//@   ensures mu-not-held-on-return: !held(l.mu)
